@@ -747,7 +747,78 @@ def r19(ctx):
         raise AnalysisBroken('C09.R19: the two storeLastData(index, part) overloads of ChainedMessage were not found')
 
 
+def r21(ctx):
+    ctx.rule('C09.R21', 'a telegram built for sending is identified for every source address: in MessageMap::find(master, ...) each '
+             'lookup of the key combined with an active read / write source marker (key | ID_SOURCE_ACTIVE_...) is reached '
+             'only with the source bits of the key cleared - every path from the initialisation of the key passes the store '
+             'that clears them (key &= ~ID_SOURCE_MASK) or the edge on which they are tested to be zero, whatever the '
+             'passive flag says - because the master number of QQ left in the key turns the read marker 0x1e into the write '
+             'marker 0x1f for the odd master numbers', minimum=2)
+    import re
+    fb = ctx.fb
+    fns = [f for f in fb.fns('ebusd::MessageMap::find') if 'MasterSymbolString' in f.sig]
+    if len(fns) != 1:
+        raise AnalysisBroken('C09.R21: MessageMap::find(master, ...) not found')
+    fn = fns[0]
+    ctx.touch(fn)
+    asg = list(fn.assignments())
+    n = 0
+    M64 = (1 << 64) - 1
+    for c in fn.calls('find'):
+        v = fn.nodes[c]
+        if 'map<' not in (v.get('callee') or '') or not v.get('args'):
+            continue
+        arg = fn.strip(v['args'][-1], casts=True)
+        av = fn.nodes[arg]
+        if av.get('k') != 'BinaryOperator' or av.get('op') != '|':
+            continue
+        kv = fn.nodes[fn.strip(av['lhs'], casts=True)]
+        if kv.get('rk') != 'local':
+            raise AnalysisBroken('C09.R21: the key of the active lookup is not a local variable')
+        bits = 0
+
+        def consts(x):
+            val = fn.val(x)
+            if val is not None:
+                return [val & M64]
+            out = []
+            ch = fn.nodes[x].get('ch', [])
+            if fn.nodes[x]['k'] == 'ConditionalOperator':
+                ch = ch[1:]
+            for y in ch:
+                out += consts(y)
+            return out
+        for val in consts(av['rhs']):
+            bits |= val
+        if not bits:
+            raise AnalysisBroken('C09.R21: the source marker of the active lookup is not constant')
+        n += 1
+        kd, kn = kv['decl'], kv['name']
+        inits = [nid for nid, d, rhs, op, lhs in asg if d == kd and op == 'init']
+        clears = set(nid for nid, d, rhs, op, lhs in asg if d == kd and op == '&=' and rhs is not None and
+                     fn.val(rhs) is not None and (fn.val(rhs) & M64) & bits == 0)
+        cut = []
+        for b in fn.blocks.values():
+            if b.cond is None or b.tk == 'SwitchStmt' or len(b.succs) != 2:
+                continue
+            cnd = fn.effective_cond(b.id)
+            for j in (0, 1):
+                for a in fn.norm_atom(cnd, j == 0):
+                    m = re.match(r'^\(\(%s & #(\d+)\) == #0\)$' % re.escape(kn), a[0])
+                    if m and a[1] and int(m.group(1)) & bits == bits:
+                        cut.append((b.id, j))
+        if len(inits) != 1:
+            raise AnalysisBroken('C09.R21: initialisation of the lookup key not found')
+        ib, ii = fn.pos(inits[0])
+        bad = fn.reaches_point(ib, fn.pos(c), clears, start_idx=ii + 1, cut_edges=cut)
+        ctx.ob('C09.R21', fn, c, not bad, 'lookup of %s' % fn.key(arg)[:60],
+               'reached only with the source bits cleared (%d clearing store(s), %d zero-test edge(s)): %s' % (len(clears), len(cut), not bad))
+    if n < 2:
+        raise AnalysisBroken('C09.R21: only %d active lookups found in MessageMap::find' % n)
+
+
 def run(ctx):
+    r21(ctx)
     r19(ctx)
     r18(ctx)
     r16(ctx)
